@@ -90,8 +90,10 @@ class AbstractSourceSinkGraph(nx.DiGraph):
             if self.base_graph.out_degree(u) == 0 or u in self.additional_ends:
                 self.add_edge(u, self.sink)
 
-        self.source_edges = list(self.out_edges(self.source))
-        self.sink_edges = list(self.in_edges(self.sink))
+        # If the base graph has no source (no sink), the global source (sink) was never added to the graph:
+        # the subclasses report this with a ValueError in _post_build
+        self.source_edges = list(self.out_edges(self.source)) if self.source in self else []
+        self.sink_edges = list(self.in_edges(self.sink)) if self.sink in self else []
         self.source_sink_edges = set(self.source_edges + self.sink_edges)
 
     # ----------------------- Shared helper methods -----------------------
